@@ -287,7 +287,8 @@ struct AbandonedTick {
     /// the only strong handle kept: 0 Addr, 1 OwningAddr, 2 Sender, 3 Caller
     kind: usize,
     mailbox: Mailbox,
-    /// which tick is the slow one (1-based)
+    /// which tick is the slow one (1-based); 0: none - instead the actor, built non-restartable,
+    /// asks for its own restart at t=3 (which is ignored: nothing may happen to its timers)
     nth: u32,
     with_interval_with: bool,
 }
@@ -296,12 +297,20 @@ impl Scene for AbandonedTick {
     fn roles(&self) -> Vec<RoleCfg> {
         let mut r = RoleCfg::default();
         r.started_actions = vec![if self.with_interval_with { Action::IntervalWith { timer: 1, period: 2 } } else { Action::Interval { timer: 1, period: 2 } }];
-        r.slow_tick = Some((self.nth, crate::world::Work { sleep: 5, ..Default::default() }));
+        if self.nth > 0 {
+            r.slow_tick = Some((self.nth, crate::world::Work { sleep: 5, ..Default::default() }));
+        } else {
+            r.msg_actions = vec![(M_RESTART, Action::Restart)];
+        }
         vec![r]
     }
 
     fn setup(&self, exec: &Exec) {
-        let cfg = SpawnCfg { mailbox: self.mailbox, strat: crate::scenes::Strat::Default, timeout: Some((2, false)) };
+        let cfg = if self.nth > 0 {
+            SpawnCfg { mailbox: self.mailbox, strat: crate::scenes::Strat::Default, timeout: Some((2, false)) }
+        } else {
+            SpawnCfg { mailbox: self.mailbox, strat: crate::scenes::Strat::NonRestartable, timeout: None }
+        };
         let owning = spawn_probe(0, cfg);
         let base = owning.to_addr();
         let mut h = Handles::default();
@@ -329,7 +338,16 @@ impl Scene for AbandonedTick {
             drop(o.detach());
         }
         drop(base);
-        exec.spawn_client(0, run_client(0, h, vec![Op::Sleep(17), Op::UpgradeProbe(H::WAddr(0)), Op::Drop(held)]));
+        let ops = if self.nth > 0 {
+            vec![Op::Sleep(17), Op::UpgradeProbe(H::WAddr(0)), Op::Drop(held)]
+        } else {
+            let ask = match held {
+                H::Snd(_) => Op::Send(held, M_RESTART),
+                _ => Op::Call(held, M_RESTART),
+            };
+            vec![Op::Sleep(3), Op::UpgradeProbe(H::WAddr(0)), ask, Op::Sleep(14), Op::Drop(held)]
+        };
+        exec.spawn_client(0, run_client(0, h, ops));
     }
 
     fn check(&self, t: &Trace) -> Vec<Violation> {
@@ -340,15 +358,18 @@ impl Scene for AbandonedTick {
         // the slow tick starts at 2*nth and is abandoned two ticks later; until the client lets
         // go at t=17 the ticks due at 2, 4, .., 16 are all handled (the ones that came due
         // during the slow one right after it)
-        let abandoned_at = 2 * self.nth as u64 + 2;
+        let abandoned_at = if self.nth > 0 { 2 * self.nth as u64 + 2 } else { 4 };
         let after = ticks.iter().filter(|t| **t >= abandoned_at && **t <= 16).count();
         let due_after = (abandoned_at..=16).filter(|t| t % 2 == 0).count();
         crate::check::oblige("timers-keep-firing");
         if ticks.len() < 8 || after < due_after {
             out.push(Violation {
                 clause: "timers-keep-firing",
-                key: format!("C15/only-strong={kind}/interval-dead-after-abandoned-tick"),
-                detail: format!("tick #{} outlasted the (carry-on) handler timeout; ticks were handled at {ticks:?}, expected all of t=2,4,..,16 ({due_after} of them from t={abandoned_at} on)", self.nth),
+                key: format!("C15/only-strong={kind}/interval-dead-after-{}", if self.nth > 0 { "abandoned-tick" } else { "ignored-restart" }),
+                detail: format!(
+                    "{}; ticks were handled at {ticks:?}, expected all of t=2,4,..,16 ({due_after} of them from t={abandoned_at} on)",
+                    if self.nth > 0 { format!("tick #{} outlasted the (carry-on) handler timeout", self.nth) } else { "the non-restartable actor asked for its own restart at t=3".to_string() }
+                ),
             });
         }
         for o in &an.ops {
@@ -376,10 +397,14 @@ fn abandoned_tick_cases(tier: Tier) -> Vec<Case> {
     let mbs: &[Mailbox] = if tier == Tier::Quick { &[Mailbox::U, Mailbox::B(1)] } else { &[Mailbox::U, Mailbox::B(0), Mailbox::B(1), Mailbox::B(2)] };
     for kind in 0..4 {
         for &mailbox in mbs {
-            for nth in [1u32, 2, 3] {
+            for nth in [0u32, 1, 2, 3] {
                 for with_interval_with in [false, true] {
                     v.push(Case {
-                        desc: format!("strong-kinds [tick #{nth} abandoned by a carry-on timeout] only={} mailbox={} interval_with={with_interval_with}", ["Addr", "OwningAddr", "Sender", "Caller"][kind], mailbox.name()),
+                        desc: if nth > 0 {
+                            format!("strong-kinds [tick #{nth} abandoned by a carry-on timeout] only={} mailbox={} interval_with={with_interval_with}", ["Addr", "OwningAddr", "Sender", "Caller"][kind], mailbox.name())
+                        } else {
+                            format!("strong-kinds [non-restartable, asks for its own restart] only={} mailbox={} interval_with={with_interval_with}", ["Addr", "OwningAddr", "Sender", "Caller"][kind], mailbox.name())
+                        },
                         // the slow tick takes 5 > 2: the timeout's select! never has both arms ready
                         exec: ExecCfg { horizon: 30, select_choice: false, ..ExecCfg::default() },
                         bound: None,
